@@ -31,7 +31,8 @@ def unkey(k):
     return k.split("factor:", 1)[1].encode("ascii").decode("unicode_escape")
 
 
-def decide_equiv(ctx, rule, A, B, what, loc, n_other=1, extra=""):
+def decide_equiv(ctx, rule, A, B, what, loc, n_other=1, extra="", domain=None,
+                 base_avoid=()):
     """Decide A ≡ B.  Known factors are confirmed and excluded; anything else
     is reported with its minimal factor as key."""
     known = known_factors(ctx.prop_id, rule)
@@ -41,11 +42,12 @@ def decide_equiv(ctx, rule, A, B, what, loc, n_other=1, extra=""):
                      f"{what}: strings containing {f!r} are not restored "
                      f"({f!r} -> {A.run(f)!r}, expected {B.run(f)!r})", loc, witness=f)
         # an entry that no longer reproduces is reported by core as a NOTE
-    avoid = list(known)
+    avoid = list(known) + [f for f in base_avoid if f not in known]
     rounds = 0
     total_states = 0
     while True:
-        ok, w, n = fst.equivalent(A, B, avoid, extra_chars=extra, n_other=n_other)
+        ok, w, n = fst.equivalent(A, B, avoid, extra_chars=extra, n_other=n_other,
+                                  domain=domain(avoid) if domain else None)
         total_states += n
         if ok:
             break
